@@ -32,5 +32,9 @@ with ThreadPoolExecutor(14) as p:
         for o in fails[:int(os.environ.get('NF','14'))]:
             print('   FAIL %s | %s | %s:%s %s' % (o['id'], o['desc'], os.path.basename(o['file'] or ''), o['line'], o['kind']))
             if trace and 'trace' in o:
-                for st in o['trace'][-60:]:
+                ent = res.get('entry')
+                for st in o['trace']:
+                    if st.get('fn') == ent and 'lhs' in st and not str(st['value']).endswith('@1') and st['lhs'].isidentifier() and (not st['lhs'].startswith('return_value') or st['lhs'].startswith('return_value_nondet_')) and not st['lhs'].startswith('tmp_'):
+                        print('        IN ', st['lhs'], '=', json.dumps(st['value'])[:600])
+                for st in o['trace'][-int(os.environ.get('NT', '0')):] if os.environ.get('NT') else []:
                     print('        ', st)
